@@ -10,13 +10,15 @@
 //	shot <nshots> <script> <tables> <reqs> <scens>    provider + ONE gun against the scripted target; per shot:
 //	                                                  request log with the variables each template saw, samples
 //	inst <instances> <total> <tables> <reqs> <scens>  provider + several guns concurrently; rows seen per scenario
-//	iter <goroutines> <per> <len>                     real mp.NextIterator / GetMapValue from several goroutines
+//	iter <goroutines> <per> <len> <rounds>            real mp.NextIterator / GetMapValue from several goroutines;
+//	                                                  <rounds> start-ups with simultaneous first calls
 package main
 
 import (
 	"context"
 	"fmt"
 	"os"
+	"os/exec"
 	"sort"
 	"strconv"
 	"strings"
@@ -399,6 +401,40 @@ func runIter(f []string) string {
 			}
 		}
 	}
+	// start-up: fresh iterators, all goroutines make their FIRST calls at the same moment
+	rounds := 0
+	if len(f) > 4 {
+		rounds, _ = strconv.Atoi(f[4])
+	}
+	startups := true
+	for r := 0; r < rounds && startups; r++ {
+		itr := mp.NewNextIterator(1)
+		var ready int32
+		vals := make([][]int, g)
+		for t := 0; t < g; t++ {
+			wg.Add(1)
+			go func(t int) {
+				defer wg.Done()
+				atomic.AddInt32(&ready, 1)
+				for atomic.LoadInt32(&ready) < int32(g) {
+				}
+				for j := 0; j < 3; j++ {
+					vals[t] = append(vals[t], itr.Next(".s[next]"))
+				}
+			}(t)
+		}
+		wg.Wait()
+		var all []int
+		for t := 0; t < g; t++ {
+			all = append(all, vals[t]...)
+		}
+		sort.Ints(all)
+		for i, v := range all {
+			if v != i {
+				startups = false
+			}
+		}
+	}
 	// rows through the real path evaluation
 	rowsData := make([]map[string]string, ln)
 	for i := range rowsData {
@@ -433,7 +469,7 @@ func runIter(f []string) string {
 	for _, c := range counts {
 		cs = append(cs, strconv.FormatInt(c, 10))
 	}
-	return fmt.Sprintf("%s %s errs=%d rows=%s", vh.B(exact), vh.B(mono), errs, strings.Join(cs, ","))
+	return fmt.Sprintf("%s %s startups=%s errs=%d rows=%s", vh.B(exact), vh.B(mono), vh.B(startups), errs, strings.Join(cs, ","))
 }
 
 func runCase(c string) string {
@@ -479,14 +515,46 @@ func runCase(c string) string {
 	case "shot":
 		return runShot(f)
 	case "inst":
+		// several guns run concurrently: a fatal runtime error (concurrent map write) would kill
+		// the whole run, so the case is executed in a child process
+		if os.Getenv("HC15_CHILD") == "" {
+			return runChild(c)
+		}
 		return runInst(f)
 	case "iter":
+		if os.Getenv("HC15_CHILD") == "" {
+			return runChild(c)
+		}
 		return runIter(f)
 	}
 	return "unknown-case"
 }
 
+func runChild(c string) string {
+	ctx, cancel := context.WithTimeout(context.Background(), 90*time.Second)
+	defer cancel()
+	cmd := exec.CommandContext(ctx, os.Args[0], "one", c)
+	cmd.Env = append(os.Environ(), "HC15_CHILD=1")
+	out, err := cmd.Output()
+	if ctx.Err() != nil {
+		return "ok hang"
+	}
+	if err != nil {
+		return "crash"
+	}
+	return strings.TrimRight(string(out), "\n")
+}
+
 func main() {
+	if len(os.Args) > 2 && os.Args[1] == "one" {
+		fs = afero.NewMemMapFs()
+		httpscenario.Import(fs)
+		_import.Import(fs)
+		pluginconfig.AddHooks()
+		target = a15.NewTarget()
+		fmt.Println(runCase(os.Args[2]))
+		return
+	}
 	if len(os.Args) > 1 && os.Args[1] == "run" {
 		fs = afero.NewMemMapFs()
 		httpscenario.Import(fs)
